@@ -34,14 +34,22 @@ func cmdC14(seed uint64, tier, outdir string) {
 	}
 	type kv struct{ k, v string }
 	var vals []kv
-	for i := 0; i < nVals; i++ {
+	// distinct texts: among identical known values NearestMatch may return either key, sequentially too
+	// (its candidates are ranked by confidence only), so a unique sequential answer needs distinct values
+	seenText := map[string]bool{}
+	for i := 0; len(vals) < nVals && i < 50*nVals; i++ {
 		t := string(lic[r.intn(len(lic))])
 		ws := strings.Fields(t)
 		if len(ws) > 250 {
 			o := r.intn(len(ws) - 250)
 			ws = ws[o : o+250]
 		}
-		vals = append(vals, kv{fmt.Sprintf("v%02d", i), strings.Join(ws, " ")})
+		txt := strings.Join(ws, " ")
+		if seenText[txt] {
+			continue
+		}
+		seenText[txt] = true
+		vals = append(vals, kv{fmt.Sprintf("v%02d", len(vals)), txt})
 	}
 	var queries []string
 	for i := 0; i < nQ; i++ {
